@@ -2,17 +2,31 @@
    App.Close.  A case = number of closers, the ids of those that return an error, the observed
    event history in sequence-number order, and the outcome class of the run
    (0 = Close returned and every started closer returned; 1 = Close never returned (hang);
-    2 = a closer waited in vain for the other closers to be called (stalled); 3 = panic). *)
+    2 = a closer waited in vain for the other closers to be called (stalled); 3 = panic).
+
+   CMulti: K Close calls on one App that OVERLAP (every later call is invoked while a closer of an earlier one is still
+   running).  The history is a list of (call, KInv | KObs o): the driver's invocation of call k, and the closer events
+   attributed to call k - the j-th entry into a closer's Close() belongs to call j, because the driver invokes call j+1
+   only after every closer has been entered j times.  On code in which every call invokes every closer once and waits
+   for its own invocations the attribution is exact; whatever else happens shows as an event attributed to a call
+   before that call's invocation, as a call that returns before one of its invocations, or as a missing / surplus
+   invocation.  Model: Model/ConcMulti.v (independent instances of close_prog); acceptor `multi_accepts`. *)
 From Coq Require Import List Arith Bool.
-From IocVerif Require Import Model.Conc.
+From IocVerif Require Import Model.Conc Model.Merge Model.ConcMulti.
 Import ListNotations.
 
-Record case := mkCase { cid : nat; cn : nat; cfails : list nat; chist : list obs; coutcome : nat }.
+Record case1 := mkCase { cid1 : nat; cn : nat; cfails : list nat; chist : list obs; coutcome : nat }.
 
-Definition fails_of (c : case) : nat -> bool := fun i => mem_nat i (cfails c).
+Inductive case : Type :=
+| COne (c : case1)
+| CMulti (id K n : nat) (fails : list nat) (h : list (nat * kev)) (outcome : nat).
+
+Definition cid (c : case) : nat := match c with COne c1 => cid1 c1 | CMulti i _ _ _ _ _ => i end.
+
+Definition fails_of (c : case1) : nat -> bool := fun i => mem_nat i (cfails c).
 
 (* model vs implementation: the history is the observable projection of a complete run of the model *)
-Definition check_case (c : case) : bool :=
+Definition check_one (c : case1) : bool :=
   Nat.eqb (coutcome c) 0 && close_accepts (cn c) (fails_of c) (chist c).
 
 (* the property evaluated directly on the observed history, independent of the step model *)
@@ -28,7 +42,7 @@ Definition p_close (o : obs) : bool := match o with OCloseRet => true | _ => fal
 Definition in_range (n : nat) (o : obs) : bool :=
   match o with OCall j => Nat.leb 1 j && Nat.leb j n | ORet j _ => Nat.leb 1 j && Nat.leb j n | OCloseRet => true end.
 
-Definition closer_ok (c : case) (i : nat) : bool :=
+Definition closer_ok (c : case1) (i : nat) : bool :=
   let h := chist c in
   Nat.eqb (count_obs (p_call i) h) 1 && Nat.eqb (count_obs (p_ret i) h) 1
   && Nat.eqb (count_obs (p_ret_exact i (fails_of c i)) h) 1
@@ -37,7 +51,7 @@ Definition closer_ok (c : case) (i : nat) : bool :=
      | _, _, _ => false
      end.
 
-Definition oracle_case (c : case) : bool :=
+Definition oracle_one (c : case1) : bool :=
   Nat.eqb (coutcome c) 0
   && Nat.eqb (count_obs p_close (chist c)) 1
   && forallb (in_range (cn c)) (chist c)
@@ -52,8 +66,46 @@ Fixpoint overlapped (h : list obs) (open_ : nat) : bool :=
   | ORet _ _ :: r => overlapped r (open_ - 1)
   | OCloseRet :: r => overlapped r open_
   end.
-Definition nontrivial (c : case) : bool :=
+Definition nontrivial_one (c : case1) : bool :=
   Nat.leb 2 (cn c) && negb (Nat.eqb (length (cfails c)) 0) && overlapped (chist c) 0.
+
+(* ---------- several overlapping calls ------------------------------------------------------------------ *)
+
+(* model vs implementation: an interleaving of K accepted single-call histories, each behind its invocation *)
+Definition check_multi (K n : nat) (fails : list nat) (h : list (nat * kev)) (outcome : nat) : bool :=
+  Nat.eqb outcome 0 && multi_accepts K n (fun i => mem_nat i fails) h.
+
+(* the property evaluated directly on what is attributed to every call: invoked once, before everything else of the
+   call; every closer entered exactly once by the call and returned, with the right error, before the call returned *)
+Definition oracle_multi (K n : nat) (fails : list nat) (h : list (nat * kev)) (outcome : nat) : bool :=
+  Nat.eqb outcome 0
+  && forallb (fun e => Nat.ltb (fst e) K) h
+  && forallb (fun k => match sel k h with
+                       | KInv :: r => match all_obs r with
+                                      | Some ho => oracle_one (mkCase 0 n fails ho 0)
+                                      | None => false
+                                      end
+                       | _ => false
+                       end) (seq 0 K).
+
+(* non-trivial: at least two calls, at least one closer, and a call was invoked while an earlier one had been invoked
+   and had not returned *)
+Fixpoint calls_overlapped (h : list (nat * kev)) (open_ : nat) : bool :=
+  match h with
+  | [] => false
+  | (_, KInv) :: r => if Nat.ltb 0 open_ then true else calls_overlapped r (S open_)
+  | (_, KObs OCloseRet) :: r => calls_overlapped r (open_ - 1)
+  | _ :: r => calls_overlapped r open_
+  end.
+Definition nontrivial_multi (K n : nat) (h : list (nat * kev)) : bool :=
+  Nat.leb 2 K && Nat.leb 1 n && calls_overlapped h 0.
+
+Definition check_case (c : case) : bool :=
+  match c with COne c1 => check_one c1 | CMulti _ K n fails h oc => check_multi K n fails h oc end.
+Definition oracle_case (c : case) : bool :=
+  match c with COne c1 => oracle_one c1 | CMulti _ K n fails h oc => oracle_multi K n fails h oc end.
+Definition nontrivial (c : case) : bool :=
+  match c with COne c1 => nontrivial_one c1 | CMulti _ K n _ h _ => nontrivial_multi K n h end.
 
 Definition mismatches (cs : list case) : list nat := map cid (filter (fun c => negb (check_case c)) cs).
 Definition violations (cs : list case) : list nat := map cid (filter (fun c => negb (oracle_case c)) cs).
